@@ -18,6 +18,8 @@
       (lengths, names, the post-processed CNOTs form a forest — never two on the same qubit pair —,
       maximality), the repaired labelling also respects the other two-qubit gates, the pinned one does
       not (witness);
+    * the post-selection conditions re-applied after a SWAP follow the photons for the repaired converter
+      (`cond_follows_photons`), not for the pinned one (`cond_follows_photons_fails_on_current_code`);
     * the cQASM front-end's assignment of declared qubit variables to qubits (`operand_lands_on_named_qubit`,
       `operand_index_injective`, `operand_index_in_range`, closed forms `operand_index_array` /
       `operand_index_single`: total width of the variables declared before, plus the index).
@@ -149,6 +151,35 @@ theorem swap_perm_spec (a b : ℕ) (h : a ≠ b) :
     · rw [swapPerm_eq _ _ (by omega) (by omega), e2, e1, e3]
     · rw [swapList_length, e3, e4]
     · intro j; rw [e3, swapPairs_comm a b j h]; exact swap_aux b a j hab
+
+/-! ### post-selection conditions across a SWAP
+
+A post-processed CNOT leaves conditions ("one photon in each of my two qubits") on the processor.  A later SWAP
+moves the photons of a qubit to another mode pair, so the conditions must move with them; otherwise the outputs
+with two photons in one of the CNOT's qubits are no longer rejected once both qubits have been swapped away
+(4 qubits: `h(1); cx(1,2); swap(2,3); swap(0,1)` gives 5/6 of non-logical outputs on the pinned code). -/
+
+theorem swapPairs_involutive (a b : ℕ) (_h : a ≠ b) (j : ℕ) : swapPairs a b (swapPairs a b j) = j := by
+  unfold swapPairs
+  split_ifs <;> omega
+
+/-- repaired converter: a condition re-applied after a SWAP counts, on the state behind the SWAP, exactly the
+photons it counted before the SWAP -/
+theorem cond_follows_photons (a b : ℕ) (h : a ≠ b) (t : ℕ → ℕ) (c : Cond) :
+    condCount (moveState a b t) (condAfterSwap true a b c) = condCount t c := by
+  simp only [condCount, condAfterSwap, if_true, List.map_map]
+  congr 1
+  apply List.map_congr_left
+  intro j _
+  simp [moveState, swapPairs_involutive a b h]
+
+/-- pinned code: the condition stays on the old modes -/
+theorem cond_follows_photons_fails_on_current_code :
+    ¬ ∀ (a b : ℕ), a ≠ b → ∀ (t : ℕ → ℕ) (c : Cond),
+      condCount (moveState a b t) (condAfterSwap false a b c) = condCount t c := by
+  intro h
+  have := h 0 1 (by decide) (fun j => if j = 0 then 2 else 0) [0, 1]
+  simp [condCount, condAfterSwap, moveState, swapPairs] at this
 
 /-! ### CNOT labelling -/
 
